@@ -392,6 +392,7 @@ class Merge(Expr):
                     right_index,
                     self.suffixes,
                     self.indicator,
+                    _broadcast_side=self.broadcast_side,
                 )
 
         if (shuffle_left_on or shuffle_right_on) and (
@@ -678,6 +679,7 @@ class BroadcastJoin(Merge, PartitionsFiltered):
         "suffixes",
         "indicator",
         "_partitions",
+        "_broadcast_side",
     ]
     _defaults = {
         "how": "inner",
@@ -688,7 +690,18 @@ class BroadcastJoin(Merge, PartitionsFiltered):
         "suffixes": ("_x", "_y"),
         "indicator": False,
         "_partitions": None,
+        "_broadcast_side": None,
     }
+
+    @functools.cached_property
+    def broadcast_side(self):
+        # The side was chosen by ``Merge._lower`` *before* the other side was
+        # repartitioned to the requested ``npartitions``; recomputing it from the
+        # partition counts of the inputs could flip it
+        side = self.operand("_broadcast_side")
+        if side is not None:
+            return side
+        return super().broadcast_side
 
     def _divisions(self):
         if self.broadcast_side == "left":
